@@ -232,19 +232,24 @@ theorem checkSerialization_congr {own own' : List Attr} {p : OType}
 /-! ### re-creating an accepted type from the definition it prints as -/
 
 theorem define_parts {env : List OType} {d : Def} {t : OType} (h : define env d = .ok t) :
+    d.params.any (fun q => (typeParams (parentOf env d)).any (fun r => r.1 == q.1)) = false ∧
     d.constants.any (fun c => d.attrs.any (fun a => a.name == c.1)) = false ∧
     ∃ attrs, defineAttrs (parentOf env d) (d.decls (parentOf env d)) = .ok attrs ∧
       checkEquality attrs (parentOf env d) (d.equality.toList?.getD []) = .ok () ∧
       checkSerialization attrs (parentOf env d) false [] (d.serialization.getD []) = .ok () ∧
       t = { id := env.length, attrs := attrs, equality := d.equality.toList?,
-            includeType := d.includeType.getD true, serialization := d.serialization } :: parentOf env d := by
+            includeType := d.includeType.getD true, serialization := d.serialization, params := d.params } ::
+          parentOf env d := by
   unfold define at h
   generalize parentOf env d = parent at h ⊢
   simp only at h
   split at h
   · cases h
+  rename_i hpar
+  split at h
+  · cases h
   · rename_i hboth
-    refine ⟨Bool.eq_false_iff.mpr hboth, ?_⟩
+    refine ⟨Bool.eq_false_iff.mpr hpar, Bool.eq_false_iff.mpr hboth, ?_⟩
     cases ha : defineAttrs parent (d.decls parent) with
     | error c => simp [ha] at h
     | ok attrs =>
@@ -298,10 +303,11 @@ theorem define_typeDef {env : List OType} {d : Def} {l : Level} {p : OType} (hnd
     (hcn : (d.constants.map (·.1)).Nodup) (h : define env d = .ok (l :: p))
     (hu : ∀ a ∈ l.attrs, a.undefConstant = false) :
     define env (typeDef d.parent l) = .ok ({ l with attrs := reorder l.attrs } :: p) := by
-  obtain ⟨hboth, attrs, hattrs, heq, hser, ht⟩ := define_parts h
+  obtain ⟨hpar, hboth, attrs, hattrs, heq, hser, ht⟩ := define_parts h
   have hp : parentOf env (typeDef d.parent l) = parentOf env d := rfl
-  have hl : l = Level.mk env.length attrs d.equality.toList? (d.includeType.getD true) d.serialization :=
+  have hl : l = Level.mk env.length attrs d.equality.toList? (d.includeType.getD true) d.serialization d.params :=
     (List.cons.inj ht).1
+  have hpars : (typeDef d.parent l).params = d.params := by rw [hl]; rfl
   have hpp : p = parentOf env d := (List.cons.inj ht).2
   have hla : l.attrs = attrs := by rw [hl]
   have hnames : (attrs.map (·.name)).Nodup := by
@@ -315,7 +321,7 @@ theorem define_typeDef {env : List OType} {d : Def} {l : Level} {p : OType} (hnd
     rw [hl]; simp only [typeDef]
     cases d.includeType.getD true <;> rfl
   unfold define
-  simp only [hp, typeDef_noBoth hnames d.parent l hla, Bool.false_eq_true, if_false,
+  simp only [hp, hpars, hpar, typeDef_noBoth hnames d.parent l hla, Bool.false_eq_true, if_false,
     typeDef_decls hattrs (by rw [← hla]; exact hu) d.parent l hla, heqs, hsers, hinc]
   rw [checkEquality_congr hlook, heq]
   simp only
